@@ -282,7 +282,7 @@ def sampling_bounded(p):
         Z = np.concatenate([rng.uniform(0, 40, 30), [0.0, 40.0, -3.0, 55.0, 20.0]])
         ref = {}
         for fname in ("lin.nc", "packed.nc"):
-            for sub in (None, (2, 10, 2, 8), (3, 9, 3, 7)):
+            for sub in (None, (2, 10, 3, 8), (3, 9, 2, 7)):  # sub-rectangles whose x and y offsets differ
                 timer = TimeKeeper(start="2020-01-01T00:00:00", stop="2020-01-01T02:00:00", dt=600)
                 grid = Grid(d / fname, subgrid=sub)
                 state = State(instance_variables=dict(temp=float), default_values=dict(temp=0.0))
@@ -326,7 +326,7 @@ def sampling_bounded(p):
         Xs = np.array([2.3, 3.1, 4.4, 6.2, 8.7, 2.6, 3.499, 5.0])
         Ys = np.array([4.6, 3.2, 5.4, 4.1, 6.3, 2.8, 4.45, 5.0])  # no half-integer ties (own cell ambiguous there)
         for zset, Zs in (("all shallow", np.full(8, 5.0)), ("mixed", np.array([5.0, 5.0, 40.0, 5.0, 70.0, 2.0, 12.0, 30.0])), ("surface", np.full(8, 0.5))):
-            for sub in (None, (1, 11, 1, 9), (2, 7, 2, 8)):
+            for sub in (None, (1, 11, 2, 9), (2, 10, 1, 8)):
                 keep = np.ones(len(Xs), bool) if sub is None else (Xs > sub[0] + 0.6) & (Xs < sub[1] - 1.6) & (Ys > sub[2] + 0.6) & (Ys < sub[3] - 1.6)
                 if not keep.any():
                     continue
